@@ -1044,6 +1044,27 @@ where
         Ok(Err(e)) => run.fail(&format!("{key}/roundtrip"), &format!("{name} (input length {len}): own encoding rejected: {e}"), case.clone()),
         Err(m) => run.fail(&format!("{key}/roundtrip"), &format!("{name} (input length {len}): decoding the own encoding panicked: {m}"), case.clone()),
     }
+    // the value embedded in a larger record: decoded from a cursor that does not start at offset 0 (and with
+    // other data after it), it must be the same value and the cursor must stop right behind it
+    for (pre, post) in [(4usize, 0usize), (7, 3), (32, 1)] {
+        let mut rec: Vec<u8> = (0..pre).map(|i| 0xA0 ^ i as u8).collect();
+        rec.extend_from_slice(&bytes);
+        rec.extend(std::iter::repeat(0x5C).take(post));
+        let mut cur = std::io::Cursor::new(&rec[..]);
+        cur.set_position(pre as u64);
+        run.count("evaluations", 1);
+        match catch(|| T::decode_with_param(param, &mut cur).map_err(|e| e.to_string())) {
+            Ok(Ok(d)) => {
+                if !same(&d, v) || d.get_encoded().ok().as_ref() != Some(&bytes) {
+                    run.fail(&format!("{key}/embedded"), &format!("{name} (input length {len}): decoded from offset {pre} of a larger record, the value differs from the one that was encoded"), case.clone());
+                } else if cur.position() as usize != pre + bytes.len() {
+                    run.fail(&format!("{key}/embedded_cursor"), &format!("{name} (input length {len}): decoding from offset {pre} left the cursor at {} instead of {}", cur.position(), pre + bytes.len()), case.clone());
+                }
+            }
+            Ok(Err(e)) => run.fail(&format!("{key}/embedded"), &format!("{name} (input length {len}): own encoding at offset {pre} of a larger record rejected: {e}"), case.clone()),
+            Err(m) => run.fail(&format!("{key}/embedded"), &format!("{name} (input length {len}): decoding at offset {pre} of a larger record panicked: {m}"), case.clone()),
+        }
+    }
     // other lengths
     let l = bytes.len();
     let mut lens: Vec<usize> = (0..l.min(41)).collect();
